@@ -9,6 +9,10 @@ for fn in sorted(os.listdir(os.path.join(V, "findings.d"))):
         for e in (x if isinstance(x, list) else [x]):
             e = dict(e); e.setdefault("id", fn[:-5]); items.append(e)
 items.sort(key=lambda e: (e.get("property", ""), e.get("status", ""), e.get("class", e.get("commit", ""))))
+obs = [e for e in items if e.get("status") == "observation"]
+items = [e for e in items if e.get("status") != "observation"]
+json.dump({"_comment": "NOT findings and NOT violations: behaviour an engine's oracle notices on inputs OUTSIDE what the property quantifies over (the check would demand more than the property states if it reported them). ./check counts them in the evidence notes and otherwise ignores exactly the oracle class named.",
+           "observations": obs}, open(os.path.join(V, "observations.json"), "w"), indent=1)
 json.dump({"_comment": "status=finding: genuine defect recorded, not repaired - suppresses exactly the oracle class named; status=fixed: repaired by the named /repo commit - suppresses nothing",
            "findings": items}, open(os.path.join(V, "known_findings.json"), "w"), indent=1)
 def cell(t, n):
@@ -17,9 +21,13 @@ def cell(t, n):
 rows = ["| id | property | status | commit / oracle class | what fails |", "|---|---|---|---|---|"]
 for e in sorted(items, key=lambda e: (e["status"] != "fixed", e.get("property", ""), e.get("id", ""))):
     rows.append(f"| {e.get('id','')} | {e.get('property','')} | {e['status']} | {cell(e.get('commit','')[:10] if e['status']=='fixed' else '`'+e.get('class','')+'`', 60)} | {cell(e.get('what',''), 330)} |")
+if obs:
+    rows += ["", "Observations outside a property's quantifier (`observations.json`; neither findings nor violations - see §7):", "", "| id | property | oracle class | what is observed, and why it is outside the property |", "|---|---|---|---|"]
+    for e in sorted(obs, key=lambda e: (e.get("property", ""), e.get("id", ""))):
+        rows.append(f"| {e.get('id','')} | {e.get('property','')} | `{e.get('class','')}` | {cell(e.get('what',''), 420)} |")
 dp = os.path.join(V, "DESIGN.md")
 d = open(dp).read()
 a = d.index("<!-- FINDINGS-TABLE-BEGIN"); a = d.index("\n", a) + 1
 b = d.index("<!-- FINDINGS-TABLE-END")
 open(dp, "w").write(d[:a] + "\n".join(rows) + "\n" + d[b:])
-print(len(items), "entries:", sum(e["status"] == "finding" for e in items), "findings,", sum(e["status"] == "fixed" for e in items), "fixed")
+print(len(items), "entries:", sum(e["status"] == "finding" for e in items), "findings,", sum(e["status"] == "fixed" for e in items), "fixed;", len(obs), "observations")
